@@ -55,7 +55,7 @@ CHECKS = {
         "category": "proof",
         "text": "Verus proves for every base, IRI and heuristic candidate that Relativizer::relativize (real function text, extracted each run) returns Some(r) only if r is a valid IRI reference and BaseIri::resolve(base, r) returned exactly the IRI: the function's resolve-and-compare guard makes the soundness half of the property hold whatever the prefix heuristic computes.",
         "design_ref": "DESIGN.md 5 (C17), 8.3",
-        "note": "Trusted: Verus/z3; BaseIri::resolve (oxiri) as the definition of RFC 3986 resolution; IriRef::new as the validity test. The parent-step bound, completeness (IRIs equal to the base up to query/fragment are always relativised) and Relativizer::new are covered only by a labelled bounded native stand-in (167 640 enumerated triples).",
+        "note": "Trusted: Verus/z3; BaseIri::resolve (oxiri) as the definition of RFC 3986 resolution; IriRef::new as the validity test. The parent-step bound, completeness (IRIs equal to the base up to query/fragment are always relativised) and Relativizer::new are covered only by a labelled bounded native stand-in (168 810 enumerated triples).",
         "technique": "deductive verification (Verus postcondition over an abstracted callee) of mechanically extracted code",
     },
     "C19": {
